@@ -14,6 +14,8 @@ DECIDED = ('(a) every file-opening call in static_stream.py is enumerated; (b) e
            'stat-ed and tested is the very definition of `name` the guard tested (no rebinding in between); (e) the '
            'exists/isfile and access tests dominate the open with 404/403 on their failing edges. With os.path.abspath '
            'normalising lexically this gives: every opened path has the normalised root directory as a proper ancestor.')
+DECIDED_R6 = ('Round 6: test tables and a None sentinel of a locating helper are normalised away; containment is a prefix test against root + separator.')
+DECIDED = DECIDED + ' ' + DECIDED_R6
 NOT_DECIDED = 'symlinks inside the root (outside the statement\'s "normalised location"); behaviour of os.path itself.'
 ASSUMPTIONS = ['os.path.abspath normalises "."/".."/repeated separators lexically and returns no trailing separator',
                'os.path.join(root, x) with x stripped of leading separators stays relative to root']
